@@ -64,6 +64,25 @@ def run_exh_single(ctx, case):
     k, s = case['k'], case['s']
     ctx.note(klass=f'n={len(s)}', desc=['single', s, k], nontrivial=(k != 0 or 'Y' in s))
     _check_single(ctx, k, s, dense=True)
+    if k == 0 and set(s) == {'Z'}:
+        # the edge of the index range (once per n): every index the conversion ACCEPTS must come back from the inverse conversion (injectivity);
+        # an index outside 0..4^n-1 may only be rejected
+        nq = _nq()
+        n = len(s)
+        for i in (4 ** n - 1, 4 ** n, 4 ** n + 1, -1, 2 * 4 ** n):
+            for fn in ('str', 'F2', 'op'):
+                try:
+                    if fn == 'str':
+                        back = nq.gate.pauli_str_to_index(nq.gate.pauli_index_to_str(i, n))
+                    elif fn == 'F2':
+                        back = nq.gate.pauli_F2_to_index(nq.gate.pauli_index_to_F2(i, n, with_sign=True), with_sign=True)
+                    else:
+                        back = nq.gate.pauli_str_to_index(nq.gate.PauliOperator.from_index(i, n).str_)
+                except (AssertionError, ValueError, IndexError, KeyError, OverflowError):
+                    ctx.require(not (0 <= i < 4 ** n), 'a valid index is not rejected', f'i={i} n={n} via {fn}')
+                    continue
+                ctx.require(int(back) == i, 'an index accepted by index->' + fn + ' comes back from the inverse conversion (index range edge)', f'i={i} n={n} -> {int(back)}')
+        ctx.label('index range edge')
 
 
 def cases_exh_single(tier):
